@@ -57,3 +57,11 @@ Theorem C17_equal_total_example :
     equal_m 6 c fx x (rl0, 0) p p = (EOk true, (rl0 - 16, 0)).
 Proof. exact equal_total_example. Qed.
 Print Assumptions C17_equal_total_example.
+
+(* PARTIAL (see Value/EqualTotalDen.v): a denotation exists whenever the executable decoder
+   succeeds; the link from the Spec validity predicate to that success is not proved *)
+Theorem C17_den_defined_of_valid_partial : forall fuel lcap m mid caps p v,
+  msg_ok m -> Value.VDec.vdec fuel lcap m mid caps p = Some v ->
+  den true m mid caps p v /\ exists c, trav true m p (Z.of_nat (vdepth v)) c.
+Proof. exact den_defined_of_valid_partial. Qed.
+Print Assumptions C17_den_defined_of_valid_partial.
